@@ -21,6 +21,8 @@ func init() {
 }
 
 func runC02(c *Ctx) {
+	c.R.Rule("RS-no-request-time-state", "request handling writes no state that outlives the request (package-level variables, objects built at start-up, constructor variables captured by handlers) declared in the packages implementing this property", 1)
+	runStateless(c, "RS-no-request-time-state", "pkg/encryption", "pkg/cookies", "pkg/sessions")
 	r := c.R
 	r.Rule("R1-mac-coverage", "signer and verifier agree on (seed; name, value, timestamp) and their order; cookieSignature/hmac structure", 7)
 	r.Rule("R2-emitted-signed", "every non-empty cookie value derives from SignedValue", 7)
